@@ -26,7 +26,7 @@ def plan(tier, seed):
 
 def thresholds(tier):
   t = {"types_built": 300, "values_checked": 5000, "layout_comparisons": 5000, "aliasing_probes": 20000,
-       "types_with_list_field": 100, "types_nested": 100, "hash_comparisons": 1000, "same_name_redeclarations": 200, "hash_after_field_update_probes": 2000, "ctor_arg_aliasing_probes": 5000}
+       "types_with_list_field": 100, "types_nested": 100, "hash_comparisons": 1000, "same_name_redeclarations": 200, "hash_after_field_update_probes": 2000, "ctor_arg_aliasing_probes": 5000, "histories_checked": 1000, "history_flips_of_pending_leaves": 2000}
   if tier == "thorough":
     t = {k: v * 15 for k, v in t.items()}
   return t
@@ -352,7 +352,70 @@ def check_type(sh, shape, rng, case):
           W("equal-struct-not-found-in-set-after-in-place-leaf-update", path=path, value=cur); break
       except TypeError:
         break
+  check_history(sh, shape, rng, B, cls, leaves, total, W)
   sh.sample({"shape": shape_fp(shape), "nbits": total, "leaves": len(leaves), "values": len(vals)})
+
+
+def _setp(v, path, x):
+  for p_ in path[:-1]: v = v[p_]
+  v[path[-1]] = x
+
+
+def _getp(v, path):
+  for p_ in path: v = v[p_]
+  return v
+
+
+def check_history(sh, shape, rng, B, cls, leaves, total, W):
+  """a HISTORY of @= / <<= / _flip() on one struct object (whole struct from a struct or from Bits, single leaves), judged
+  after every step against a two-slot model per leaf: @= is visible at once and leaves a pending <<= alone, <<= stays invisible
+  until the flip and is what the flip shows - whatever @= happened in between; the sources are overwritten afterwards.
+  A flip of a leaf with no <<= since the previous flip is outside the property: the model is re-synchronised, nothing is asserted."""
+  from pymtl3.datatypes import Bits
+  for h in range(2):
+    v0 = gen_val(rng, shape, "rand")
+    o = B.val(shape, v0)
+    o <<= o; o._flip()                    # every leaf owns a _next (what the simulator guarantees)
+    cur = copy.deepcopy(v0); pend = {}
+    trace = []
+    for step in range(rng.randrange(4, 12)):
+      op = rng.choice(["whole<<=", "whole<<=bits", "whole@=", "whole@=bits", "leaf@=", "leaf@=", "leaf<<=", "flip", "flip"])
+      if op.startswith("whole"):
+        v = gen_val(rng, shape, "rand")
+        src = Bits(total, R.pack(shape, v)) if op.endswith("bits") else B.val(shape, v)
+        if "<<=" in op:
+          o <<= src
+          for (pth, lo, w) in leaves: pend[pth] = _getp(v, pth)
+        else:
+          o @= src
+          cur = copy.deepcopy(v)
+        if rng.random() < 0.5:              # the source goes on living: overwrite it
+          src @= (Bits(total, R.pack(shape, gen_val(rng, shape, "rand"))) if op.endswith("bits") else B.val(shape, gen_val(rng, shape, "rand")))
+          op += ",source-overwritten"
+      elif op.startswith("leaf"):
+        (pth, lo, w) = rng.choice(leaves)
+        x = rng.getrandbits(w)
+        leaf = leaf_obj(o, pth)
+        if "<<=" in op: leaf <<= x; pend[pth] = x
+        else: leaf @= x; _setp(cur, pth, x)
+        op += f",{'.'.join(map(str, pth))}={x:#x}"
+      else:
+        o._flip()
+        got = readback(shape, o)
+        for (pth, lo, w) in leaves:
+          if pth in pend: _setp(cur, pth, pend.pop(pth)); sh.count("history_flips_of_pending_leaves")
+          else: _setp(cur, pth, _getp(got, pth))
+      trace.append(op)
+      sh.count("history_steps_checked")
+      got = readback(shape, o)
+      if got != cur:
+        bad = [".".join(map(str, pth)) for (pth, lo, w) in leaves if _getp(got, pth) != _getp(cur, pth)]
+        W("history-of-blocking-and-non-blocking-updates-differs-from-model", history=trace, leaves=bad[:6],
+          got=got, expected=cur)
+        return
+      if int(o.to_bits().uint()) != R.pack(shape, cur):
+        W("history-packed-value-differs-from-fields", history=trace); return
+    sh.count("histories_checked")
 
 
 def name_variants(shape, rng):
